@@ -68,9 +68,7 @@ func (h *histProp) Plan(tier string, seed int64) []core.Segment {
 			segs = append(segs, core.Segment{Kind: "default:" + t, N: def, Chunk: 1})
 		} else {
 			segs = append(segs, core.Segment{Kind: "long:" + t, N: 300 * tierScale(tier, 20)})
-			if tier == "thorough" {
-				segs = append(segs, core.Segment{Kind: "bigblock:" + t, N: 1500, Chunk: 10})
-			}
+			segs = append(segs, core.Segment{Kind: "bigblock:" + t, N: 160 * tierScale(tier, 10), Chunk: 10})
 		}
 	}
 	return segs
